@@ -6,14 +6,17 @@ C04 — how the span gets its event attributes from the caller: Go slices and `a
 * sdk/trace/span.go `addEvent`: `e.Attributes = c.Attributes()`, then `nil` / `e.Attributes[:limit]` by the per-event limit,
                    `RecordError`: the user's options, then `WithAttributes(exception.type, exception.message)`, one
                    `NewEventConfig` for the stack-trace flag (its result is dropped), then `addEvent`;
+* sdk/trace/span.go `AddLink` (after the F44 repair): `l.Attributes = link.Attributes`, `nil` / `[:limit]` by the per-link limit,
+                   then `l.Attributes = slices.Clone(l.Attributes)`; Start(WithLinks(…)) reaches the same code
+                   (trace/config.go copies the Link structs, newRecordingSpan calls AddLink for each);
 * a `WithAttributes(seg...)` option built from a caller's slice IS that slice (`attributeOption(attributes)`): same
   array, same spare capacity.
 
 `append` writes IN PLACE when the capacity suffices and allocates otherwise; how much capacity a fresh array gets is
 Go's business (`grow`, a parameter: every theorem holds for every growth policy). The exported events hold slice
 headers; what a reader sees is what the arrays hold WHEN HE READS. Props (PropsCaller.lean) show that this machine
-is indistinguishable from value semantics (`crun`): events never change after the call, and the caller's arrays are
-never written by the span. Core Lean only.
+is indistinguishable from value semantics (`crun`): events and links never change after the call, and the caller's
+arrays are never written by the span. Core Lean only.
 -/
 import Otel.C04.Model
 import Otel.C04.Caller
@@ -119,17 +122,50 @@ def aAddEvent (grow : Nat → Nat) (lim : Limits) (h : Heap) (q : EQ AEvent) (na
   let a := capSlice lim.perEvent c.2
   (c.1, q.add lim.eventCount ⟨name, a.1, a.2⟩)
 
-/-- the heap machine: the heap, the span without its events' storage (`span.events` is not used), the event queue -/
+/-- a link as the span holds it -/
+structure ALink where
+  sc : SC
+  attrs : Option Slice
+  dropped : Nat
+deriving DecidableEq, Repr
+
+/-- `slices.Clone(s)`: nil stays nil, otherwise a fresh array with the elements -/
+def goClone (grow : Nat → Nat) (h : Heap) (a : Option Slice) : Heap × Option Slice :=
+  match a with
+  | none => (h, none)
+  | some s => ((alloc grow h (h.read s)).1, some (alloc grow h (h.read s)).2)
+
+/-- the heap machine: the heap, the span without its events' and links' storage (`span.events`, `span.links` are not
+used), the event queue, the link queue -/
 structure ASt where
   nC : Nat
   heap : Heap
   span : St
   events : EQ AEvent
+  links : EQ ALink
 deriving DecidableEq, Repr
 
-/-- the option a caller's segment makes: the slice `array_b[off : off+n]` whose capacity reaches the end of the array -/
+/-- the slice `array_b[off : off+n]` (clamped to the array, as the harness does) whose capacity reaches the end of
+the array -/
+def segSlice (h : Heap) (s : Seg) : Slice :=
+  ⟨s.b, s.off, min s.n ((h.getD s.b []).length - s.off), (h.getD s.b []).length - s.off⟩
+
+/-- the option a caller's segment makes -/
 def segOpt (a : ASt) (s : Seg) : AOpt :=
-  if s.b < a.nC then .ref ⟨s.b, s.off, s.n, (a.heap.getD s.b []).length - s.off⟩ else .lit []
+  if s.b < a.nC then .ref (segSlice a.heap s) else .lit []
+
+/-- `recordingSpan.AddLink`; `arg` = (heap, link.Attributes) -/
+def aLink (grow : Nat → Nat) (lim : Limits) (a : ASt) (sc : SC) (arg : Heap × Option Slice) : ASt :=
+  if !sc.isValid && sliceLen arg.2 == 0 && sc.ts == 0 then a
+  else if a.span.ended then a
+  else
+    let c := capSlice lim.perLink arg.2
+    let cl := goClone grow arg.1 c.1
+    { a with heap := cl.1, links := a.links.add lim.linkCount ⟨sc, cl.2, c.2⟩ }
+
+/-- a literal argument list: nil when empty, else a private array without spare capacity -/
+def litSlice (h : Heap) (kvs : List KV) : Heap × Option Slice :=
+  if kvs.isEmpty then (h, none) else ((alloc (fun n => n) h kvs).1, some (alloc (fun n => n) h kvs).2)
 
 def aEvent (grow : Nat → Nat) (lim : Limits) (a : ASt) (name : Bytes) (opts : List AOpt) : ASt :=
   if a.span.ended then a
@@ -151,30 +187,41 @@ def aRecordError (grow : Nat → Nat) (lim : Limits) (a : ASt) (err : Option (By
 
 /-- what a reader of the heap sees in array cells -/
 def derefEvent (h : Heap) (e : AEvent) : Event := ⟨e.name, h.readO e.attrs, e.dropped⟩
+def derefLink (h : Heap) (l : ALink) : Link := ⟨l.sc, h.readO l.attrs, l.dropped⟩
 
 def astep (grow : Nat → Nat) (lim : Limits) (a : ASt) : COp → ASt
   | .write b off kvs =>
     if b < a.nC then { a with heap := writeBuf a.heap b off kvs } else a
   | .plain (.addEvent name attrs) => aEvent grow lim a name [.lit attrs]
   | .plain (.recordError err attrs) => aRecordError grow lim a err [.lit attrs]
+  | .plain (.addLink sc attrs) => aLink grow lim a sc (litSlice a.heap attrs)
   | .plain op => { a with span := step lim a.span op }
   | .addEventFrom name segs => aEvent grow lim a name (segs.map (segOpt a))
   | .recordErrorFrom err segs => aRecordError grow lim a err (segs.map (segOpt a))
-  -- SetAttributes copies every attribute it stores (span.go: `a = truncateAttr(…); append(s.attributes, a)`);
-  -- AddLink is only driven with arrays the caller does not write to afterwards (see checks/C04.json, assumptions)
+  -- SetAttributes copies every attribute it stores (span.go: `a = truncateAttr(…); append(s.attributes, a)`)
   | .setAttrsFrom segs =>
     { a with span := step lim a.span (.setAttrs (readSegs (a.heap.take a.nC) segs)) }
   | .addLinkFrom sc seg =>
-    { a with span := step lim a.span (.addLink sc (readSeg (a.heap.take a.nC) seg)) }
+    aLink grow lim a sc (if seg.b < a.nC then (a.heap, some (segSlice a.heap seg)) else (a.heap, none))
 
 def arun (grow : Nat → Nat) (lim : Limits) (a : ASt) (cops : List COp) : ASt := cops.foldl (astep grow lim) a
 
 def ainit (name : Bytes) (caps : List Nat) : ASt :=
-  { nC := caps.length, heap := initBufs caps, span := init name, events := ⟨[], 0⟩ }
+  { nC := caps.length, heap := initBufs caps, span := init name, events := ⟨[], 0⟩, links := ⟨[], 0⟩ }
 
-/-- the span a reader sees NOW: event attributes are read from the heap as it is now -/
+/-- the span a reader sees NOW: event and link attributes are read from the heap as it is now -/
 def aview (a : ASt) : St :=
-  { a.span with events := ⟨a.events.queue.map (derefEvent a.heap), a.events.dropped⟩ }
+  { a.span with events := ⟨a.events.queue.map (derefEvent a.heap), a.events.dropped⟩,
+                links := ⟨a.links.queue.map (derefLink a.heap), a.links.dropped⟩ }
+
+/-- AddLink before the F44 repair (no `slices.Clone`): the link keeps the caller's slice. Used only to show that the
+theorems distinguish it. -/
+def aLinkShared (lim : Limits) (a : ASt) (sc : SC) (arg : Heap × Option Slice) : ASt :=
+  if !sc.isValid && sliceLen arg.2 == 0 && sc.ts == 0 then a
+  else if a.span.ended then a
+  else
+    let c := capSlice lim.perLink arg.2
+    { a with heap := arg.1, links := a.links.add lim.linkCount ⟨sc, c.1, c.2⟩ }
 
 /-- the seeded shape (trace/config.go with a "no allocation for a single option" fast path): the first option's
 slice is stored as it is. Used only to show that the theorems distinguish it. -/
